@@ -135,11 +135,20 @@ pub fn check_c04(obs: &Observation) -> V {
         for lane in lanes_of(r) {
             let kind = lane_kind(&lane);
             let known = kind != "unknown";
-            let mut linked = false;
+            // Some(true/false): the link is certainly open / closed; None: the remote went away while
+            // the link was open and came back under the same id - the runtime may or may not have
+            // torn the link down in between
+            let mut linked: Option<bool> = Some(false);
+            let detaches: Vec<u64> = r.sent.iter().filter(|(_, s)| matches!(s, Step::Detach)).map(|(s, _)| *s).collect();
+            let mut next_detach = 0usize;
             let mut n_linked = 0usize;
             let mut n_synced = 0usize;
             let mut n_notfound = 0usize;
             for f in r.frames.iter().filter(|f| f.lane == lane) {
+                while next_detach < detaches.len() && detaches[next_detach] < f.step {
+                    linked = if linked == Some(true) { None } else { linked };
+                    next_detach += 1;
+                }
                 let reqs = sent_before(r, &lane, f.step, |s| matches!(s, Step::Link(_) | Step::Sync(_)));
                 let syncs = sent_before(r, &lane, f.step, |s| matches!(s, Step::Sync(_)));
                 match f.kind {
@@ -154,10 +163,10 @@ pub fn check_c04(obs: &Observation) -> V {
                                 format!("remote {} lane {}: {} linked frames but only {} link/sync requests sent before step {}", ri, lane, n_linked, reqs, f.step),
                             );
                         }
-                        linked = true;
+                        linked = Some(true);
                     }
                     FrameKind::Synced => {
-                        if !linked {
+                        if linked == Some(false) {
                             add(format!("as: synced outside a link lane-kind={}", kind), format!("remote {} lane {} at step {}", ri, lane, f.step));
                         }
                         n_synced += 1;
@@ -169,7 +178,7 @@ pub fn check_c04(obs: &Observation) -> V {
                         }
                     }
                     FrameKind::Event => {
-                        if !linked {
+                        if linked == Some(false) {
                             add(format!("as: event outside a link lane-kind={}", kind), format!("remote {} lane {} at step {} body {:?}", ri, lane, f.step, body_str(f)));
                         }
                         // body must be something the lane produced
@@ -204,17 +213,22 @@ pub fn check_c04(obs: &Observation) -> V {
                                 add("as: more lane-not-found answers than requests".into(), format!("remote {} lane {}", ri, lane));
                             }
                         } else {
-                            if !linked {
+                            if linked == Some(false) {
                                 add(format!("as: unlinked without an open link lane-kind={}", kind), format!("remote {} lane {} step {} body {:?}", ri, lane, f.step, b));
                             }
                             if b == "@laneNotFound" {
                                 add("as: lane-not-found for an existing lane".into(), format!("remote {} lane {}", ri, lane));
                             }
                         }
-                        linked = false;
+                        linked = Some(false);
                     }
                 }
             }
+            while next_detach < detaches.len() {
+                linked = if linked == Some(true) { None } else { linked };
+                next_detach += 1;
+            }
+            let last_detach = detaches.last().cloned().unwrap_or(0);
             // closing conditions
             let clean = !obs.fault_before_quiescence && r.dropped_at.is_none();
             if !known && clean {
@@ -247,8 +261,12 @@ pub fn check_c04(obs: &Observation) -> V {
                         FrameKind::Event => {}
                     }
                 }
-                let last_sync_req = r.sent.iter().filter(|(_, s)| matches!(s, Step::Sync(l) if *l == lane)).map(|(s, _)| *s).last();
+                // (a request made before the remote went away is not owed an answer)
+                let last_sync_req = r.sent.iter().filter(|(st, s)| *st > last_detach && matches!(s, Step::Sync(l) if *l == lane)).map(|(s, _)| *s).last();
                 let unlink_after = last_sync_req.map(|sr| r.sent.iter().any(|(s, st)| *s > sr && matches!(st, Step::Unlink(l) if *l == lane))).unwrap_or(false);
+                // (nor is a request sent after the agent side had closed the remote's channel)
+                let closed_early = r.closed_at.map(|c| obs.stop_fired_at.map(|s| c < s).unwrap_or(true)).unwrap_or(false);
+                let last_sync_req = last_sync_req.filter(|sr| r.closed_at.map(|c| *sr < c).unwrap_or(true) && !closed_early);
                 if let Some(sr) = last_sync_req {
                     if !unlink_after && last_unlinked_step < sr && (last_synced_step < sr || !state_linked) && !(last_synced_step > sr) {
                         add(
@@ -258,7 +276,7 @@ pub fn check_c04(obs: &Observation) -> V {
                     }
                 }
             }
-            if known && r.dropped_at.is_none() && r.closed_at.is_some() && obs.result.is_some() && linked {
+            if known && r.dropped_at.is_none() && r.closed_at.is_some() && obs.result.is_some() && linked == Some(true) {
                 add(
                     format!("as: link left open when the agent {} lane-kind={}", if matches!(obs.result, Some(Ok(()))) { "stopped" } else { "failed" }, kind),
                     format!("remote {} lane {}: channel closed by the agent without a final unlinked", ri, lane),
